@@ -299,6 +299,14 @@ impl Exec {
                 self.slots.insert(*slot, Slot::W(h));
                 Ok(Out::Unit)
             }
+            Op::HRead(slot, n) if *n == READ_TO_END => match self.slots.get_mut(slot) {
+                Some(Slot::R(h)) => {
+                    let mut buf = Vec::new();
+                    h.read_to_end(&mut buf).map_err(|e| io_err_info(&e))?;
+                    Ok(Out::Read(buf))
+                }
+                _ => Ok(Out::Unit),
+            },
             Op::HRead(slot, n) if self.fill_reads && *n > 0 => match self.slots.get_mut(slot) {
                 Some(Slot::R(h)) => {
                     let mut buf = vec![0u8; *n];
